@@ -4,6 +4,7 @@ package props
 import (
 	"bytes"
 	"fmt"
+	"regexp"
 	"time"
 
 	"github.com/ozontech/seq-db/seq"
@@ -164,4 +165,17 @@ func rangeClassOf(c *gen.Corpus, from, to uint64) string {
 		return "point"
 	}
 	return "partial"
+}
+
+var sigDigits = regexp.MustCompile(`[0-9]+`)
+var sigFrac = regexp.MustCompile(`seq-db-[0-9A-Z]{26}`)
+
+// errSig reduces an error text to a stable class: fraction names and numbers removed, cut to 90 bytes.
+func errSig(s string) string {
+	s = sigFrac.ReplaceAllString(s, "<frac>")
+	s = sigDigits.ReplaceAllString(s, "N")
+	if len(s) > 90 {
+		s = s[:90]
+	}
+	return s
 }
